@@ -1337,6 +1337,16 @@ def gen_fft(rng, cx=False):
                 for rep_ax in ((0, 0), (-1, -1), (1, 1)):
                     yield case(name, [xs_], {"axes": rep_ax}, ns="fft", tags=["repeated_axes"])
                     yield case(name, [xs_], {"s": (4, 4), "axes": rep_ax}, ns="fft", tags=["repeated_axes", "with_s"])
+    # out= (NumPy >= 2): the caller's buffer receives the primal spectrum / signal; the adjoint transform of a later
+    # pull-back must leave it alone. Keyword and positional spelling, a fresh buffer per call
+    for name, shp, oshp, odt, xc in (("fft", (4,), [4], "complex128", True), ("ifft", (2, 4), [2, 4], "complex128", True), ("fft2", (2, 4), [2, 4], "complex128", True), ("ifftn", (2, 2, 4), [2, 2, 4], "complex128", True),
+                                     ("rfft", (6,), [4], "complex128", False), ("irfft", (4,), [6], "float64", True), ("rfft2", (2, 6), [2, 4], "complex128", False), ("irfftn", (2, 4), [2, 6], "float64", True)):
+        if not cx and (not xc or not name.startswith("ir")):
+            yield case(name, [A(rng, shp, "any", False)], ns="fft", fresh_out=[oshp, odt], tags=["out_buffer"])
+        elif cx and xc:
+            yield case(name, [A(rng, shp, "any", True)], ns="fft", fresh_out=[oshp, odt], tags=["out_buffer"])
+            if name in ("fft", "ifft", "irfft"):
+                yield case(name, [A(rng, shp, "any", True), None, -1, None], ns="fft", fresh_out=[oshp, odt], fresh_out_pos=4, tags=["out_buffer", "out_positional"])
     # shifts
     for name in ("fftshift", "ifftshift"):
         for shp in ((4,), (5,), (3, 4), (2, 3, 5)):
